@@ -14,14 +14,14 @@ import time
 from .. import core
 
 MIRI_DIR = os.path.join(core.ROOT, "miri")
-LITMUS = ["litmus_get", "litmus_tick", "litmus_restart", "litmus_alloc", "litmus_stream", "litmus_extend", "litmus_liar"]
+LITMUS = ["litmus_get", "litmus_tick", "litmus_restart", "litmus_alloc", "litmus_stream", "litmus_extend", "litmus_liar", "litmus_grow"]
 
 
 def run_miri(ctx, seeds):
     """returns list of dict(program, seed, rc, race:str|None, tail)"""
     results = []
     env = dict(os.environ, CARGO_NET_OFFLINE="true",
-               MIRIFLAGS="-Zmiri-disable-isolation -Zmiri-disable-stacked-borrows -Zmiri-ignore-leaks")
+               MIRIFLAGS="-Zmiri-disable-isolation -Zmiri-disable-stacked-borrows -Zmiri-ignore-leaks -Zmiri-address-reuse-cross-thread-rate=0")
     # build once (sequential), then run programs x seeds in parallel
     b = subprocess.run(["cargo", "+nightly", "miri", "run", "--offline", "--bin", LITMUS[0]], cwd=MIRI_DIR, env=env, stdout=subprocess.PIPE,
                        stderr=subprocess.STDOUT, timeout=1800)
@@ -95,8 +95,8 @@ def run(ctx):
              "chain needs; skeleton: seeded schedules of 2-4 real threads at the yield points, every executed site must be the one the model predicts; caller contract "
              "of get_unchecked: on the Nucleo histories of C06 (paused writers, runs cancelled mid-pass, restarts) every index the worker hands to get_unchecked has "
              "reached its publishing store; Miri "
-             "(thorough tier, or when a certificate or the skeleton breaks): the seven litmus programs of miri/ (eager bucket allocation vs. polling lookup, injector thread vs. tick/"
-             "snapshot reads vs. 2 pool threads, old injector pushing across a restart, racing allocation, streaming iterator, batch into a foreign bucket, batch whose iterator over-yields) x seeds",
+             "(thorough tier, or when a certificate or the skeleton breaks): the eight litmus programs of miri/ (eager bucket allocation vs. polling lookup, injector thread vs. tick/"
+             "snapshot reads vs. 2 pool threads, old injector pushing across a restart, racing allocation, streaming iterator, batch into a foreign bucket, batch whose iterator over-yields, worker iterator into a bucket allocated on demand) x seeds",
         samples=[l[:300] for l in lines[:2]] + [dict(program=m["program"], seed=m["seed"], ok=m["ok"]) for m in miri[:3]],
         schedules=len(lines), sites_executed=nsites, skeleton_mismatches=len(diffs), miri_runs=len(miri),
         miri_races=len([m for m in miri if m["race"]]))
